@@ -1063,6 +1063,37 @@ func runOnce(c *Ctx, exec *ssa.Function, fnField, onceField, memoField string) {
 			})
 		}
 	}
+	// … and no function takes, returns or captures a Func by value (a value receiver copies the Func at every call of
+	// the method: what the method builds on — a generated function calling f.Call — then runs on a private snapshot
+	// with a memo of its own)
+	{
+		isFuncVal := func(t types.Type) bool {
+			if core.NamedOf(t) != "Func" {
+				return false
+			}
+			_, isStruct := t.Underlying().(*types.Struct)
+			return isStruct
+		}
+		byVal := ""
+		for _, f := range p.ArgFuncs() {
+			if f.Synthetic != "" {
+				continue
+			}
+			for _, prm := range f.Params {
+				if isFuncVal(prm.Type()) {
+					byVal = core.FuncName(f) + " takes " + prm.Name() + " by value"
+				}
+			}
+			rs := f.Signature.Results()
+			for i := 0; i < rs.Len(); i++ {
+				if isFuncVal(rs.At(i).Type()) {
+					byVal = core.FuncName(f) + " returns a Func by value"
+				}
+			}
+		}
+		c.R.Add("ONCE-O6", "no-func-by-value-in-signatures", "(package)", "-", byVal == "",
+			"no function or method takes or returns a Func by value (receivers included)", ternary(byVal == "", "pointers only", byVal))
+	}
 	c.R.Add("ONCE-O5", "memo|read-only-by-executor", "(package)", "-", reader == "", "the run-once memo is read only by the executor", ternary(reader == "", "no other reader", "also read by "+reader))
 	_ = strings.Join
 }
